@@ -233,6 +233,29 @@ fn sweep_inputs() -> Vec<(String, Vec<u8>)> {
             }
         }
     }
+    // long-lived parsers: the same short stream after thousands of earlier strings / sequences on one parser (a counter
+    // or budget kept per parser lifetime instead of per string); the expectation is the model run over the whole history
+    {
+        let probe: &[u8] = b"\x1b]0;t\x07ok\x1b[1;31mz\x1bP1q#\x1b\\";
+        let over = [b"\x1b]52;c;".to_vec(), vec![b'A'; 1097], b"\x07".to_vec()].concat();
+        let mut h = vec![];
+        for _ in 0..15000 {
+            h.extend_from_slice(&over);
+        }
+        h.extend_from_slice(probe);
+        v.push(("15000 oversize OSC strings, then a probe".to_string(), h));
+        let mut h = vec![];
+        for i in 0..70000u32 {
+            h.extend_from_slice(format!("\x1b[{};{}m\x1b]{}\x07", i % 300, i % 7, i % 120).as_bytes());
+        }
+        h.extend_from_slice(probe);
+        v.push(("70000 short CSI and OSC sequences, then a probe".to_string(), h));
+        let mut h = b"\x1b]".to_vec();
+        h.extend(std::iter::repeat(b'B').take((1 << 20) + 5));
+        h.extend_from_slice(b"\x07\x18");
+        h.extend_from_slice(probe);
+        v.push(("one OSC of 2^20+5 bytes, CAN, then a probe".to_string(), h));
+    }
     let mut values: Vec<u64> = (0..=70000).collect();
     values.extend([99999, 131071, 131072, 655359, 655360, 4294967295, 4294967296, 99999999999, 18446744073709551615]);
     for x in values {
